@@ -189,6 +189,17 @@ class Lib:
             ("mga94to2020#vcv", tf.transform_mga94_to_mga2020, lambda: (55, 258328.9417, 5838121.2036, 345.2, psd())),
             ("mga2020to94#col", tf.transform_mga2020_to_mga94, lambda: (53, 600000.0, 8000000.0, 10.0, col())),
         ]
+        # the whole catalogue (sweep histories): every shipped set through conform7, every dated set through conform14 at one epoch -
+        # a memo keyed on less than the whole parameter set collides between shipped sets that share labels / epochs
+        self.sweep = []
+        for n in sorted(k for k, v in vars(gc).items() if isinstance(v, gc.Transformation)):
+            if ("conform7#%s" % n) not in [k for (k, _, _) in t["tr7"]]:
+                t["tr7"].append(("conform7#%s" % n, tf.conform7, (lambda n=n: X + (getattr(gc, n),))))
+            self.sweep.append(("tr7", "conform7#%s" % n))
+            if isinstance(getattr(gc, n).ref_epoch, D):
+                k14 = "conform14#%s#2024-02-29" % n
+                t["tr14"].append((k14, tf.conform14, (lambda n=n: X + (D(2024, 2, 29), getattr(gc, n)))))
+                self.sweep.append(("tr14", k14))
         for n in ["itrf2008_to_gda94", "gda94_to_itrf2005", "itrf2014_to_gda2020", "itrf2020_to_itrf93", "gda94_to_gda2020"]:
             t["tr_alg"].append(("neg#%s" % n, lambda s: -s, (lambda n=n: (getattr(gc, n),))))
         for n in ["itrf2008_to_gda94", "gda94_to_itrf2005", "itrf2014_to_gda2020", "itrf2020_to_itrf93", "itrf97_to_gda94"]:
@@ -416,6 +427,14 @@ def run(ctx):
         tr, n = run_history(lib, progs, order, rnd)
         ncalls += n
         traces.append(tr)
+    # catalogue sweep: every shipped set once, in name order, as single-thread histories of <= 40 calls (Trace_Purity!MaxLen = 50)
+    byk = {k: (cls, k, fn, fac) for cls, lst in lib.calls.items() for (k, fn, fac) in lst}
+    for c0 in range(0, len(lib.sweep), 40):
+        prog = [byk[k] for (cls, k) in lib.sweep[c0:c0 + 40]]
+        tr, n = run_history(lib, [prog], [(x, 0) for _ in prog for x in ("S", "F")], rnd)
+        ncalls += n
+        traces.append(tr)
+    ctx.extra["catalogue_sweep_calls"] = len(lib.sweep)
     # free-running threads, 2..8, random programs over the full alphabet
     nfree = 40 if quick else 1500
     for k in range(nfree):
